@@ -38,6 +38,9 @@ CHECKS["C11"] = dict(level="other", design="4/C11",
 CHECKS["C12"] = dict(level="other", design="4/C12",
    text="Inductive step decided by the solver on the stub file system: every reachable mix of file-backed lines (offsets) and in-memory strings up to the bound is built through the API, then one of 17 operations (item assignment/deletion, slice deletion, insert, append, extend, pop, remove, reverse, +=, reads, save with three line endings to a path or an open handle) with symbolic strings/indices is compared with a Python list, the dirty flag rules, the exact saved text, re-reading of the saved file with both reader variants and the untouched source; text/mmap x plain/record variants.",
    note="Trusted: CrossHair+z3 (with its symbolic-str equality replaced by an element-wise one, see DESIGN); SymFS stub (validated differentially every run; counterexamples replayed on real files); identity record class for the record variants. Bounds: <=2 original lines, state length <=3 quick; <=3 lines, length <=4 thorough; inserted strings of length 1, assigned strings <=2.")
+CHECKS["C20"] = dict(level="other", design="4/C20",
+   text="Solver-decided on the stub file system: op-codes (create / remove / remove-of-a-file-already-deleted / flush / child create), path selectors and the position where the with-body raises are symbolic, so every history of length<=L with every exception point is a path; after each step returned paths are distinct and exist, list(pool) == created-and-not-removed == files on disk among those created, and nothing exists after flush or after leaving the context by any route (single- and multi-process pools, with and without a directory). FilePool: symbolic subset of paths, modes r/w, raising body: open handle per path inside, every handle ever opened closed afterwards.",
+   note="Trusted: CrossHair+z3; SymFS contracts for tempfile/os.remove/Manager().list() (real process boundary of multi_proc outside the claim; counterexamples replayed with the real tempfile/os/multiprocessing). Bounds: L<=4 quick / <=5 thorough.")
 NOT_YET = {}
 def main():
     props = [json.loads(l)["id"] for l in open(os.path.join(ROOT, "properties.jsonl"))]
